@@ -6,7 +6,7 @@
    vector).  The block form x[dofs] @ (A[dofs][:, dofs] @ x[dofs]) is refuted as a replacement. *)
 From Coq Require Import List QArith Qreals Reals Lra.
 From EFModel Require Import C20_CalcEnergy.
-From EFP Require Import Gen_CalcEnergy.
+From EFP Require Import Gen_CalcEnergy Gen_CalcReaction.
 Import ListNotations.
 
 Lemma src_form : is_owned_rows_full_vector calc_energy_src = true.
@@ -35,5 +35,34 @@ Theorem C20_calc_energy_block_form_refuted :
   ssem A x [0%nat; 1%nat] [0%nat] block_variant = Some (owned_block A x [0%nat] (Q2R (1#2))) /\
   owned_block A x [0%nat] (Q2R (1#2)) <> owned_rows_full_vector A x [0%nat; 1%nat] [0%nat] (Q2R (1#2)).
 Proof. exact block_variant_refuted. Qed.
+
+
+(* ---- _Simu.Calc_Reaction, body regenerated from the source (EFP.Gen_CalcReaction) ----
+   every write into `reaction` is  reaction[dofs] (+)= M[dofs] @ state  with (M, state) one of
+   (K, u_n), (C, v_n), (M, a_n) (checked by the translator): on the owned dofs each term is the COMPLETE
+   row of the part's matrix applied to the FULL state vector, nothing is written elsewhere; the result is
+   Reduce_sum(reaction) under MPI / reaction[dofs] in serial — the summand of C20_reaction_sum_fixed_general *)
+Definition is_rows_times_full (v : vexpr) : bool :=
+  match v with VMatVec (MRows MA) VX => true | _ => false end.
+
+Lemma reaction_terms_form : forallb is_rows_times_full calc_reaction_terms = true.
+Proof. vm_compute. reflexivity. Qed.
+
+Lemma reaction_has_K_term : calc_reaction_terms <> [].
+Proof. discriminate. Qed.
+
+Theorem C20_calc_reaction_terms_are_owned_rows_full_vector : forall t, In t calc_reaction_terms ->
+  forall (A : nat -> nat -> R) (x : nat -> R) (all dofs : list nat),
+  exists f, vsem A x all dofs t = Some (SOwned, f) /\
+            forall n, f n = Rsum (map (fun m => (A n m * x m)%R) all).
+Proof.
+  intros t Ht A x all dofs.
+  pose proof (proj1 (forallb_forall _ _) reaction_terms_form t Ht) as H.
+  destruct t as [| |m v|]; try discriminate. destruct m as [|m|]; try discriminate.
+  destruct m; try discriminate. destruct v; try discriminate.
+  simpl. eexists. split; [reflexivity|]. intros n. reflexivity.
+Qed.
+
+Print Assumptions C20_calc_reaction_terms_are_owned_rows_full_vector.
 
 Print Assumptions C20_calc_energy_is_owned_rows_full_vector.
